@@ -122,17 +122,29 @@ Section FromBackups.
   Qed.
 End FromBackups.
 
-(* the unchanged-tree short-cut is taken only when the new id equals the matched parent's subtree id;
-   otherwise the tree is saved unless the index already has it *)
+(* the unchanged-tree short-cut is taken exactly when the new id equals the matched parent's subtree
+   id and (with the guard of the current source) the index still has that tree *)
 Lemma shortcut_lemma : forall parent id has,
-  backup_tree_action parent id has = Shortcut <-> parent = Matched id.
+  backup_tree_action parent id has = Shortcut <->
+  parent = Matched id /\ (shortcut_requires_has_tree = true -> has = true).
 Proof.
   intros parent i has. unfold backup_tree_action. destruct parent as [p| |].
   - destruct (i =? p) eqn:E.
-    + apply N.eqb_eq in E. subst. split; reflexivity.
-    + split; intros H; [destruct has; discriminate|]. inv H. rewrite N.eqb_refl in E. discriminate.
-  - destruct has; split; discriminate.
-  - destruct has; split; discriminate.
+    + apply N.eqb_eq in E. subst p. destruct shortcut_requires_has_tree, has; cbn; split; intros H;
+        try discriminate; try (split; [reflexivity|intros; congruence]); try reflexivity.
+      destruct H as [_ H]. specialize (H eq_refl). discriminate.
+    + cbn. split; intros H; [destruct has; discriminate|]. destruct H as [H _]. inv H.
+      rewrite N.eqb_refl in E. discriminate.
+  - destruct has; split; intros H; try discriminate; destruct H; discriminate.
+  - destruct has; split; intros H; try discriminate; destruct H; discriminate.
+Qed.
+
+(* every directory tree of the new snapshot is either handed to the packer or already in the index *)
+Lemma saved_or_indexed_lemma : forall parent id has, backup_tree_action parent id has <> Save -> has = true.
+Proof.
+  intros parent i has. unfold backup_tree_action. unfold shortcut_requires_has_tree.
+  destruct parent as [p| |]; destruct has; try reflexivity; intros H; exfalso; apply H;
+    try reflexivity. destruct (i =? p); reflexivity.
 Qed.
 
 Lemma skip_lemma : forall D chunks tid o st ix parents force skip skip' cs,
